@@ -14,9 +14,9 @@ var raceDebug = os.Getenv("VERIF_RACEDBG")
 //
 // Every thread and every synchronisation object carries a vector clock that is advanced at exactly the places
 // where the happens-before hashes are (Point, TouchHB, Go, clock fire, quiescence): an operation on an object joins
-// the object's clock into the thread's and publishes the result on the object. This treats every operation as an
-// acquire+release pair on its object, which can only add order (two RLocks, two atomic loads): the monitor may miss a
-// race, it does not invent one. The rewriter wraps `m[k]` reads as MR(m)[k], writes / delete as MW(m), and range goes
+// the object's clock into the thread's and publishes the result on the object. By default this treats an operation as
+// an acquire+release pair on its object, which can only add order (two atomic loads): the monitor may miss a
+// race, it does not invent one. Mutexes, read-write mutexes and select are given their exact meaning (VCMode). The rewriter wraps `m[k]` reads as MR(m)[k], writes / delete as MW(m), and range goes
 // through SortedKeys; two accesses to one map, at least one a write, by threads whose clocks do not order them, are a
 // data race (in a free-running program: "concurrent map read and map write", a process crash).
 
@@ -55,6 +55,16 @@ func (r *Run) syncVC(t *Thread, objs ...*Obj) {
 	if !r.cfg.Race || t == nil {
 		return
 	}
+	if raceDebug == "sync" {
+		before := append(vclock{}, t.vc...)
+		defer func() {
+			for i := range t.vc {
+				if i != t.idx && t.vc[i] > before.get(i) {
+					fmt.Fprintf(os.Stderr, "SYNCDBG2 thread=%s learned idx=%d %d->%d at %s | %s | %s\n", t.ID(), i, before.get(i), t.vc[i], site(3), site(4), site(5))
+				}
+			}
+		}()
+	}
 	for _, o := range objs {
 		if o != nil {
 			t.vc = joinVC(t.vc, o.vc)
@@ -66,6 +76,72 @@ func (r *Run) syncVC(t *Thread, objs ...*Obj) {
 		}
 	}
 	t.tick()
+}
+
+// VCMode says what an operation means for the vector clocks. The default treats the operation as an acquire and a
+// release on its object (sound: it can only add order). The other modes drop edges the Go memory model does not
+// give, which would hide races: two RLocks do not order each other, an Unlock learns nothing from the next Lock, a
+// select synchronises only with the case it took.
+type VCMode uint8
+
+const (
+	VCBoth         VCMode = iota
+	VCAcquire             // Lock: join the object's clock
+	VCRelease             // Unlock (with Op.Release): publish before yielding, acquire nothing
+	VCReadAcquire         // RLock: join the clock published by Unlock
+	VCReadRelease         // RUnlock (with Op.Release): publish to the readers' clock
+	VCWriteAcquire        // RWMutex.Lock: join the clocks published by Unlock and by RUnlock
+	VCLate                // the shim calls SyncPicked for the object the operation turned out to use (select)
+)
+
+// releaseVC runs before the thread yields in an operation whose effect is already applied (Op.Release).
+func (r *Run) releaseVC(t *Thread, o *Obj, mode VCMode) {
+	switch mode {
+	case VCRelease:
+		o.vc = joinVC(o.vc, t.vc)
+		t.tick()
+	case VCReadRelease:
+		o.vcR = joinVC(o.vcR, t.vc)
+		t.tick()
+	default:
+		r.syncVC(t, o)
+	}
+}
+
+// pointVC runs after the operation was scheduled.
+func (r *Run) pointVC(t *Thread, op *Op) {
+	if raceDebug == "sync" {
+		before := append(vclock{}, t.vc...)
+		defer func() {
+			for i := range t.vc {
+				if i != t.idx && t.vc[i] > before.get(i) {
+					fmt.Fprintf(os.Stderr, "SYNCDBG thread=%s op=%s learned idx=%d %d->%d\n", t.ID(), op.Kind, i, before.get(i), t.vc[i])
+				}
+			}
+		}()
+	}
+	switch op.VC {
+	case VCAcquire, VCReadAcquire:
+		t.vc = joinVC(t.vc, op.Obj.vc)
+		t.tick()
+	case VCWriteAcquire:
+		t.vc = joinVC(joinVC(t.vc, op.Obj.vc), op.Obj.vcR)
+		t.tick()
+	case VCRelease, VCReadRelease:
+		if !op.Release { // not published before yielding: publish now
+			r.releaseVC(t, op.Obj, op.VC)
+		}
+	case VCLate:
+	default:
+		r.syncVC(t, append([]*Obj{op.Obj}, op.More...)...)
+	}
+}
+
+// SyncPicked is the acquire+release of a VCLate operation on the object it turned out to use.
+func (r *Run) SyncPicked(o *Obj) {
+	if r.cfg.Race && o != nil && r.current != nil {
+		r.syncVC(r.current, o)
+	}
 }
 
 func (r *Run) inheritVC(child, parent *Thread) {
